@@ -206,6 +206,7 @@ var profC03 = profile{
 			c.Modules = append(c.Modules[:pos], append([]string{mod}, c.Modules[pos:]...)...)
 		}
 		c.EmailAuth = false
+		c.LockAfterZero = c.Has("lock") && chance(t, "lockafterzero", 12) // boundary of the threshold option
 		for i := range c.Accounts {
 			a := &c.Accounts[i]
 			a.Locked = c.Has("lock") && chance(t, "seedlocked", 25)
